@@ -116,9 +116,9 @@ CHECKS = {
               "with correct back pointers (the by-name lookup of parents line by line is proved correct under unique names); the "
               "normal form keeps names, the multiset of relations per parent, attributes and the constraint TREES unchanged and "
               "is a fixed point. End to end the statement holds for ANY parser that inverts the rendering on writer output — "
-              "an explicit premise, not an axiom, validated by suite P-afm against the real parser on every case."),
+              "an explicit premise, not an axiom, validated by suite P-afm against the real parser on every case. Source tie (DESIGN §10): the AFMWriter class is re-translated from afm_writer.py on every run as a state record with its methods (Gen/Src_afm.v); C06_source_writer proves that the translated transform() returns the text the hand model writes for every model the model accepts (real values with a pointed positional spelling: every genuine float repr) and C06_source_writer_library_error that its library errors are the code's."),
         note="Coq kernel; extraction/driver; harness incl. the ANTLR-tree conversion; afmparser; premise antlr(render d)=d; no axioms",
-        technique="Coq proof (round trip on syntax trees, parser as a universally quantified function with a stated premise) + differential correspondence on bytes, parse trees and read models",
+        technique="Coq proof (round trip on syntax trees, parser as a universally quantified function with a stated premise) + differential correspondence on bytes, parse trees and read models + source re-translated into Gallina on every run (tools/py2coq.py) and proved equal to the model",
         design="4 C06"),
     "C12": dict(
         text=("PARTIAL. Proved: in the model every writer is a function of the model value, so a writer step leaves the model "
